@@ -93,7 +93,7 @@ def confirm(rec, scratch, verif_root, timeout=None):
             out.update(confirmed=None, path=rpath, why="stock kani confirms FAILED; playback generation unavailable")
             return out
         # the generated tests are inserted after the harness: pull them out by shape
-        tests = re.findall(r"((?:///[^\n]*\n|\n)*#\[test\]\nfn (kani_concrete_playback_\w+)\(\) \{\n.*?\n\}\n)", new, re.S)
+        tests = re.findall(r"((?:///[^\n]*\n|\n)*#\[test\]\nfn (kani_concrete_playback_\w+)\(\s*\) \{\n.*?\n\}\n)", new, re.S)
         tests = [(blk, name) for blk, name in tests if name not in old]
         # prefer the test of a failing check over cover witnesses
         fail_tests = [(b, n) for b, n in tests if "Check for `cover`" not in b]
